@@ -1,6 +1,6 @@
 PLAN = {
     "level": "exploration",
-    "quick": [replays("C08"), tape("C08", 6000, size=300)],
+    "quick": [replays("C08"), tape("C08", 12000, size=300)],
     "thorough": [replays("C08"), tape("C08", 120000, size=400)],
     "class_floors": {"has:compatible-scaled-pair-in-regime": 0.1, "has:pair-outside-exp1-regime": 0.1, "imported-units": 0.1, "user-base-unit": 0.3,
                      "depth>=3": 0.08, "consumer:analyser": 0.2, "consumer:flattened": 0.01, "metamorphic:child-permutation": 0.05,
